@@ -79,6 +79,10 @@ func (id ID) Serialize() []byte {
 }
 
 func (id *ID) Deserialize(b []byte) error {
+	// an id wider than ID_LENGTH cannot be written back: Serialize panics on it
+	if len(b) > ID_LENGTH {
+		return fmt.Errorf("id deserialize failed: %d bytes, at most %d expected", len(b), ID_LENGTH)
+	}
 	return id.value.deserialize(b)
 }
 
